@@ -1530,7 +1530,7 @@ def run_check(tier, base_seed, wall, workers, do_selftest):
             small, res = v['plan'], replay_plan(v['plan'])
         path = os.path.join(VERIF, 'replays', 'C18-%d.json' % v['seed'])
         with open(path, 'w') as f:
-            json.dump({'property': 'C18', 'seed': v['seed'], 'violation': res['violation'] or v['violation'],
+            json.dump({'optimize': bool(sys.flags.optimize), 'property': 'C18', 'seed': v['seed'], 'violation': res['violation'] or v['violation'],
                        'digest': res['digest'], 'shrink_runs': nruns, 'plan': small}, f, indent=1)
         print('VIOLATION property=C18 replay=%s' % path)
         print('  clause=%s detail=%s' % (v['violation']['clause'], (res['violation'] or v['violation'])['detail'][:400]))
@@ -1553,6 +1553,7 @@ def run_check(tier, base_seed, wall, workers, do_selftest):
                        'C calls / single bytecodes (GIL)'],
             'harness_errors': agg['harness'][:5], 'lost_tasks': agg['lost'][:5],
         },
+        'interpreter': {'optimize': bool(sys.flags.optimize), 'note': 'odd VERIF_SEED values run the whole check under python -O'},
         'assumptions': ['pre-emption granularity is a source line of parso; C-level races without the GIL are out of scope',
                         'frames of the parser generator (pgen2) are not pre-emption points',
                         'reference = the same calls executed sequentially in a pristine forked interpreter'],
